@@ -6,6 +6,7 @@ import (
 	"go/constant"
 	"go/token"
 	"go/types"
+	"reflect"
 	"sort"
 	"strings"
 )
@@ -148,6 +149,10 @@ type effsim struct {
 	// force, when set, decides a condition without splitting the path (a rule that only needs the paths on which
 	// nothing went wrong follows "the result is non-nil", "the stop predicate is false")
 	force func(v sval) (bool, bool)
+	// keepIndices: an element of a slice keeps its index (items[i] and items[j] are told apart) instead of being
+	// abstracted to "some element"
+	keepIndices    bool
+	keepAllIndices bool // ... whatever the index value is (map keys computed by calls)
 	// outValues: a pointer-typed local whose address is passed to an opaque call holds an out-value afterwards
 	outValues bool
 	// loopBodyOnly: a loop over a collection that is not a literal is followed through its body only (the
@@ -159,6 +164,10 @@ type effsim struct {
 	// trackReads: selections of fields below an initial value are recorded as "read" effects (lockset)
 	trackReads bool
 	inLen      int // evaluating the argument of len / cap
+	// mutates: opaque callees that may store through their pointer arguments: afterwards every variable that held
+	// the object handed over holds the call's out-value for that argument (result index 100+i), so that what is
+	// read below it later is told apart from what was there before the call
+	mutates func(*types.Func) bool
 }
 
 const effsimMaxPaths = 3000
@@ -478,6 +487,13 @@ func (s *effsim) store(st *sstate, p svPath, v sval, pos token.Pos) {
 	if len(p.steps) == 0 {
 		st.vars[p.root] = v
 		return
+	}
+	// a struct-typed local that holds a copy of what another location held (clone := *opts): what is stored below
+	// it lands in the copy, not in the location it was copied from
+	if b, ok := st.vars[p.root].(svPath); ok && !(b.root == p.root && len(b.steps) == 0) {
+		if _, isStruct := p.root.Type().Underlying().(*types.Struct); isStruct {
+			st.vars[p.root] = svStruct{t: p.root.Type(), fields: map[string]sval{"": b}}
+		}
 	}
 	p = s.resolve(st, p)
 	if len(p.steps) == 0 {
@@ -868,6 +884,45 @@ func (s *effsim) execTypeSwitch(x *ast.TypeSwitchStmt, st *sstate, fr *sframe, k
 		return
 	}
 	s.eval(subject, st, func(st *sstate, v sval) {
+		// the dynamic type is known: the clause is chosen as Go would choose it
+		if dt := s.dynType(v); dt != nil {
+			var chosen, def *ast.CaseClause
+			for _, cl := range x.Body.List {
+				cc := cl.(*ast.CaseClause)
+				if len(cc.List) == 0 {
+					def = cc
+					continue
+				}
+				for _, te := range cc.List {
+					if tt := c.typeOf(te); tt != nil && chosen == nil {
+						if it, isIface := tt.Underlying().(*types.Interface); isIface {
+							if types.Implements(dt, it) {
+								chosen = cc
+							}
+						} else if types.Identical(tt, dt) {
+							chosen = cc
+						}
+					}
+				}
+			}
+			if chosen == nil {
+				chosen = def
+			}
+			if chosen == nil {
+				k(st, ctlNext, nil)
+				return
+			}
+			if o := c.Info.Implicits[chosen]; o != nil {
+				st.vars[o] = v
+			}
+			s.execList(chosen.Body, st, fr, func(st *sstate, ctl sctl, rets []sval) {
+				if ctl == ctlBreak {
+					ctl = ctlNext
+				}
+				k(st, ctl, rets)
+			})
+			return
+		}
 		for i, cl := range x.Body.List {
 			cc := cl.(*ast.CaseClause)
 			st2 := st
@@ -969,6 +1024,9 @@ func (s *effsim) execRange(x *ast.RangeStmt, st *sstate, fr *sframe, k func(*sst
 			}
 		}
 		// any other collection: the body runs for some element (or not at all)
+		if p, isPath := coll.(svPath); isPath {
+			s.noteRead(st, p, x.Pos())
+		}
 		var skip *sstate
 		if !s.loopBodyOnly {
 			skip = st.clone()
@@ -1193,7 +1251,11 @@ func (s *effsim) lvalue(e ast.Expr, st *sstate) (svPath, bool) {
 		return out, found
 	case *ast.IndexExpr:
 		if base, ok := s.lvalue(x.X, st); ok {
-			return extend(base, "[]"), true
+			step := "[]"
+			if s.keepIndices {
+				s.evalNow(x.Index, st, func(iv sval) { step = s.indexStep(iv) })
+			}
+			return extend(base, step), true
 		}
 		return svPath{}, false
 	case *ast.StarExpr:
@@ -1270,6 +1332,14 @@ func (s *effsim) binop(op token.Token, x, y sval) sval {
 				return true
 			case svStruct:
 				return true
+			case svCall:
+				// freshly made errors
+				if f, ok := v.(svCall).callee.(*types.Func); ok && f.Pkg() != nil {
+					switch f.Pkg().Path() + "." + f.Name() {
+					case "fmt.Errorf", "errors.New":
+						return true
+					}
+				}
 			}
 			return false
 		}
@@ -1438,7 +1508,25 @@ func (s *effsim) eval(e ast.Expr, st *sstate, k func(*sstate, sval)) {
 			return
 		}
 		s.eval(x.X, st, func(st *sstate, l sval) {
-			s.eval(x.Y, st, func(st *sstate, r sval) { k(st, s.binop(x.Op, l, r)) })
+			s.eval(x.Y, st, func(st *sstate, r sval) {
+				// an interface holding a value of a concrete type is not nil, even when that value is a nil pointer
+				if x.Op == token.EQL || x.Op == token.NEQ {
+					for _, pr := range [][3]interface{}{{x.X, l, r}, {x.Y, r, l}} {
+						if _, otherNil := pr[2].(svNil); !otherNil {
+							continue
+						}
+						st0 := c.typeOf(pr[0].(ast.Expr))
+						if st0 == nil {
+							continue
+						}
+						if _, isIface := st0.Underlying().(*types.Interface); isIface && s.dynType(pr[1]) != nil {
+							k(st, svConst{constant.MakeBool(x.Op == token.NEQ)})
+							return
+						}
+					}
+				}
+				k(st, s.binop(x.Op, l, r))
+			})
 		})
 	case *ast.CallExpr:
 		s.evalCall(x, st, func(st *sstate, vs []sval) {
@@ -1468,8 +1556,10 @@ func (s *effsim) eval(e ast.Expr, st *sstate, k func(*sstate, sval)) {
 					s.indexSafe[x] = false
 				}
 				if p, ok := base.(svPath); ok {
+					// reading an element of a container reads the container (also through a local alias of it)
+					s.noteRead(st, p, x.Pos())
 					if _, isMap := c.typeOf(x.X).Underlying().(*types.Map); !isMap {
-						k(st, s.load(st, extend(p, "[]")))
+						k(st, s.load(st, extend(p, s.indexStep(idx))))
 						return
 					}
 				}
@@ -1687,6 +1777,50 @@ func (s *effsim) opaqueCall(st *sstate, callee types.Object, fun, recv sval, arg
 		st.epoch++
 	}
 	sc.epoch = st.epoch
+	if f, ok := callee.(*types.Func); ok && s.mutates != nil && s.mutates(f) {
+		sig := f.Type().(*types.Signature)
+		for i, a := range args {
+			if i >= sig.Params().Len() {
+				break
+			}
+			out := *sc
+			out.idx = 100 + i
+			// the address of a local handed over (whatever the parameter type: Decode(&raw)): the local holds the
+			// out-value afterwards
+			if ad, isAddr := a.(svAddr); isAddr && len(ad.p.steps) == 0 && ad.p.root != nil {
+				st.vars[ad.p.root] = out
+				continue
+			}
+			// a literal whose fields point to locations (Decode(&struct{ P *T }{P: &x.f})): each location holds the
+			// part of the out-value that the field designates
+			if lit, isLit := a.(svStruct); isLit {
+				if _, isIface := sig.Params().At(i).Type().Underlying().(*types.Interface); isIface {
+					for name, fv := range lit.fields {
+						if fa, isAddr := fv.(svAddr); isAddr && name != "" {
+							s.store(st, fa.p, svSel{x: out, steps: name}, call.Pos())
+						}
+					}
+					continue
+				}
+			}
+			pt, isPtr := sig.Params().At(i).Type().Underlying().(*types.Pointer)
+			if !isPtr {
+				continue
+			}
+			if _, isStruct := pt.Elem().Underlying().(*types.Struct); !isStruct {
+				continue
+			}
+			if _, isNil := a.(svNil); isNil {
+				continue
+			}
+			for o, v := range st.vars {
+				st.vars[o] = svSubstObject(v, a, out)
+			}
+			for hk, v := range st.heap {
+				st.heap[hk] = svSubstObject(v, a, out)
+			}
+		}
+	}
 	st.effs = append(st.effs, seffect{kind: "call", call: sc, ncond: len(st.conds), pos: call.Pos()})
 	n := 1
 	if tv, ok := s.c.Info.Types[call]; ok {
@@ -1817,6 +1951,83 @@ func (s *effsim) evalBuiltin(name string, call *ast.CallExpr, st *sstate, k func
 	}
 }
 
+// indexStep: the path step for an element selection: "[]" (some element), or, when indices are kept and the
+// index is a plain variable, "[#name]" so that x[i] and x[j] are different locations.
+func (s *effsim) indexStep(idx sval) string {
+	if s.keepIndices {
+		if p, ok := idx.(svPath); ok && len(p.steps) == 0 && p.root != nil {
+			return "[#" + p.root.Name() + "]"
+		}
+		if s.keepAllIndices {
+			return "[#" + svString(idx) + "]"
+		}
+	}
+	return "[]"
+}
+
+// dynType: the concrete (non-interface) type a normal-form value is known to have, or nil.
+func (s *effsim) dynType(v sval) types.Type {
+	var t types.Type
+	switch x := v.(type) {
+	case svPath:
+		if x.root == nil {
+			return nil
+		}
+		t = x.root.Type()
+		for _, stp := range x.steps {
+			switch {
+			case stp == "*":
+				t = derefType(t)
+			case strings.HasPrefix(stp, "["):
+				switch u := derefType(t).Underlying().(type) {
+				case *types.Slice:
+					t = u.Elem()
+				case *types.Array:
+					t = u.Elem()
+				case *types.Map:
+					t = u.Elem()
+				default:
+					return nil
+				}
+			default:
+				st, ok := derefType(t).Underlying().(*types.Struct)
+				if !ok {
+					return nil
+				}
+				found := false
+				for i := 0; i < st.NumFields(); i++ {
+					if st.Field(i).Name() == stp {
+						t, found = st.Field(i).Type(), true
+					}
+				}
+				if !found {
+					return nil
+				}
+			}
+		}
+	case svStruct:
+		t = x.t
+	case svConst:
+		switch x.v.Kind() {
+		case constant.Bool:
+			t = types.Typ[types.Bool]
+		case constant.String:
+			t = types.Typ[types.String]
+		default:
+			return nil
+		}
+	default:
+		return nil
+	}
+	if t == nil {
+		return nil
+	}
+	if _, isIface := t.Underlying().(*types.Interface); isIface {
+		return nil
+	}
+	return t
+}
+
 // ---- comparison and printing ----
 
 func svEqual(a, b sval) bool {
@@ -1882,6 +2093,67 @@ func svEqual(a, b sval) bool {
 		return ok && x.pos == y.pos
 	}
 	return false
+}
+
+// sameObject: do two normal-form values denote the same object (for literals: the same literal)?
+func sameObject(a, b sval) bool {
+	switch x := a.(type) {
+	case svStruct:
+		y, ok := b.(svStruct)
+		return ok && reflect.ValueOf(x.fields).Pointer() == reflect.ValueOf(y.fields).Pointer()
+	case svZero:
+		y, ok := b.(svZero)
+		return ok && x.t != nil && y.t != nil && types.Identical(x.t, y.t)
+	}
+	return svEqual(a, b)
+}
+
+// svSubstObject replaces, in v, every occurrence of the object `from` by `to` (struct fields and list elements
+// are searched).
+func svSubstObject(v, from, to sval) sval {
+	if sameObject(v, from) {
+		return to
+	}
+	switch x := v.(type) {
+	case svStruct:
+		changed := false
+		nf := make(map[string]sval, len(x.fields))
+		for k, f := range x.fields {
+			g := svSubstObject(f, from, to)
+			nf[k] = g
+			if !sameValueShallow(f, g) {
+				changed = true
+			}
+		}
+		if changed {
+			return svStruct{t: x.t, fields: nf}
+		}
+	case svList:
+		changed := false
+		ne := make([]sval, len(x.elems))
+		for i, e := range x.elems {
+			ne[i] = svSubstObject(e, from, to)
+			if !sameValueShallow(e, ne[i]) {
+				changed = true
+			}
+		}
+		if changed {
+			return svList{ne}
+		}
+	}
+	return v
+}
+
+func sameValueShallow(a, b sval) bool {
+	if sa, ok := a.(svStruct); ok {
+		sb, ok := b.(svStruct)
+		return ok && reflect.ValueOf(sa.fields).Pointer() == reflect.ValueOf(sb.fields).Pointer()
+	}
+	if la, ok := a.(svList); ok {
+		lb, ok := b.(svList)
+		return ok && len(la.elems) == len(lb.elems) && (len(la.elems) == 0 || &la.elems[0] == &lb.elems[0])
+	}
+	return sameObject(a, b)
 }
 
 func svString(v sval) string {
